@@ -13,7 +13,8 @@ pub fn isa_pool() -> &'static [&'static str] {
         let mut v: Vec<&'static str> = Vec::new();
         let base = "rv64imafdch_zicsr_zifencei_zba_zbb_zbc_zbs_sstc_svinval_svnapot_svpbmt_zicbom_zicbop_zicboz_";
         // strings whose byte length differs from their character count (multi-byte UTF-8)
-        for s in ["rv64\u{e9}", "\u{b5}", "rv64imafdc_\u{4e2d}\u{6587}", "\u{1f600}x", "ab\u{e9}cd\u{e9}"] {
+        // … and strings that already carry a terminator (both parities of the byte length)
+        for s in ["rv64\u{e9}", "\u{b5}", "rv64imafdc_\u{4e2d}\u{6587}", "\u{1f600}x", "ab\u{e9}cd\u{e9}", "rv64imafd\0", "rv64imafdc\0", "\0"] {
             v.push(Box::leak(s.to_string().into_boxed_str()));
         }
         for n in [0usize, 1, 2, 3, 4, 5, 10, 11, 62, 63, 64, 117, 118, 245, 246, 247, 248, 249, 300, 301, 1000, 1001] {
